@@ -2492,9 +2492,24 @@ impl<'de> serde::de::Visitor<'de> for AnnotationStoreVisitor<'_> {
                 "@id" => {
                     let id: String = map.next_value()?;
                     if let Some(substore_index) =
-                        self.store.config.current_substore_path.iter().last()
+                        self.store.config.current_substore_path.iter().last().copied()
                     {
-                        if let Ok(substore) = self.store.get_mut(*substore_index) {
+                        //the substore was inserted before its ID was known: register the ID now so it can be looked up
+                        let old_id: Option<String> = <AnnotationStore as StoreFor<
+                            AnnotationSubStore,
+                        >>::get(self.store, substore_index)
+                        .ok()
+                        .and_then(|substore| substore.id.clone());
+                        if !self.store.substore_idmap.rebind(
+                            old_id.as_deref(),
+                            id.as_str(),
+                            substore_index,
+                        ) {
+                            return Err(<A::Error as serde::de::Error>::custom(format!(
+                                "Duplicate ID for substore: {id}"
+                            )));
+                        }
+                        if let Ok(substore) = self.store.get_mut(substore_index) {
                             substore.id = Some(id);
                         }
                     } else {
